@@ -376,10 +376,15 @@ def run(ctx):
     for part in common.pmap(cli_work, list(common.chunked(cli_cases, max(1, len(cli_cases) // 16)))):
         acc += part
     ctx.layer('cli', acc)
+    from props import cli_topology
+    cli_topology.run_layer(ctx)
 
 
 def replay(case):
     common.bind_repo()
+    if case.get('layer') == 'cli-topology':
+        from props import cli_topology
+        return cli_topology.replay(case)
     acc = Acc()
     base = tempfile.mkdtemp(prefix='verif_c03r_')
     try:
